@@ -1,4 +1,6 @@
 import StorageModel.Query.BoltProofs
+import StorageModel.Query.Resolve
+import StorageModel.Query.TreeQueries
 import StorageModel.Generated.PagingFacts
 /-
   C19 — In-memory object store answers queries like the bolt-backed store.
@@ -14,6 +16,8 @@ import StorageModel.Generated.PagingFacts
   objectz's own paging arithmetic `Generated.objectzPaging`).  Spec: `page` / `total` of the rows
   that satisfy the filter (Query/Spec.lean, Query/Filter.lean `sat`).  `objectz_eq_bolt` combines
   `objectz_exact` with C02's `query_ids_exact`-style lemmas for the bolt store.
+
+  Values: no exclusion — NaN float keys included (the float64 comparators order NaN first since 1532996).
 
   Filters: the fragment of Query/Filter.lean over non-set symbols (`FilterTyped`); the whole filter
   language is C01's subject.
@@ -32,17 +36,24 @@ def WellTypedObjs (st : ObjStore) (objs : List Row) : Prop :=
   ∀ r ∈ objs, ∀ n, (∃ t, st.symbols.lookup n = some t) → WellTypedAt st.symbols r n
 
 theorem filterTyped_symbol {symbols : List (String × SymType)} {f : Filter} (h : FilterTyped symbols f) {n : String}
-    (hn : f.symbol = some n) : ∃ t, symbols.lookup n = some t := by
-  cases f with
-  | tt => simp [Filter.symbol] at hn
+    (hn : n ∈ f.symbols) : ∃ t, symbols.lookup n = some t := by
+  induction f with
+  | tt => simp [Filter.symbols] at hn
   | cmpBool m _ _ | cmpInt m _ _ | cmpFloat m _ _ | cmpStr m _ _ | cmpTime m _ _ =>
-    change some m = some n at hn; cases hn; exact ⟨_, h⟩
+    simp only [Filter.symbols, List.mem_singleton] at hn; subst hn; exact ⟨_, h⟩
   | isNull m | notNull m =>
-    change some m = some n at hn; cases hn
+    simp only [Filter.symbols, List.mem_singleton] at hn; subst hn
     obtain ⟨t, ht, _⟩ := h; exact ⟨t, ht⟩
+  | and a b iha ihb | or a b iha ihb =>
+    simp only [Filter.symbols, List.mem_append] at hn
+    rcases hn with hn | hn
+    · exact iha h.1 hn
+    · exact ihb h.2 hn
+  | not a iha => exact iha h hn
 
 /-- **null handling**: on well-typed objects the object cursor decides every filter of the fragment
-    — `= null` and `!= null` included — exactly as the specification does. -/
+    — `= null` and `!= null` included, under any nesting of `and` / `or` / `not` — exactly as the
+    specification does. -/
 theorem objectz_filter_exact (st : ObjStore) (objs : List Row) (f : Filter) (hf : FilterTyped st.symbols f)
     (hw : WellTypedObjs st objs) : ∀ r ∈ objs, evalFilter (objSymbols st r) f = sat r f := by
   intro r hr
@@ -61,30 +72,45 @@ theorem objStore_hasId {st : ObjStore} (h : st.symbols.lookup "id" = some .strin
     · have hb' : ("id" == n) = false := by simpa using hb
       rw [hb'] at h ⊢; exact ih h
 
+/-- `QueryEntitiesC` for any filter node whose evaluation on the object cursor is `spec`: the page of
+    the objects satisfying it, in the requested order, and their number -/
+theorem objectz_exact_pred (st : ObjStore) (objs : List Row) (ev : Symbols → Bool) (spec : Row → Bool)
+    (sort : List SortField) (paging : Paging) (c : Cmp Row)
+    (ho : st.objs = some objs) (hd : DistinctIds objs) (hid : st.symbols.lookup "id" = some .string)
+    (hc : newRowComparator st.schema sort = .ok c)
+    (hev : ∀ r ∈ objs, ev (objSymbols st r) = spec r)
+    (hq : paging.InRange) (hlen : (objs.length : Int) ≤ maxI64) :
+    objQueryP Generated.objectzPaging st ev sort paging =
+      .ok (page c paging.skip paging.limit (objs.filter spec), total (objs.filter spec)) := by
+  rw [objectz_paging_facts_expected]
+  have hstrict := newRowComparator_strict (objStore_hasId hid) hc hd
+  have hm : matching ({ pred := fun r => ev (objSymbols st r) } : ScanEnv Row) objs = objs.filter spec := by
+    simp only [matching]
+    apply List.filter_congr
+    intro r hr
+    simp only [ScanEnv.admits, Bool.not_false, Bool.true_and]
+    exact hev r hr
+  have hmlen : ((matching ({ pred := fun r => ev (objSymbols st r) } : ScanEnv Row) objs).length : Int) ≤ maxI64 := by
+    have : (matching ({ pred := fun r => ev (objSymbols st r) } : ScanEnv Row) objs).length ≤ objs.length :=
+      List.length_filter_le ..
+    omega
+  simp only [objQueryP, hc, ho]
+  rw [sortScan_spec hstrict _ _ _ hq (fun a ha => ha) hd.nodup hmlen, hm]
+
 /-- **objectz_exact.**  `QueryEntitiesC` returns the page of the objects that satisfy the filter,
     in the requested order (nulls first ascending, ties by id), and their total number — for every
     collection with distinct ids, in whatever order the iterator yields it, and every skip / limit. -/
 theorem objectz_exact (st : ObjStore) (objs : List Row) (q : Query) (c : Cmp Row)
     (ho : st.objs = some objs) (hd : DistinctIds objs) (hid : st.symbols.lookup "id" = some .string)
-    (hc : newRowComparator st.schema q.sort = .ok c) (hnan : ∀ r ∈ objs, NoNaNKeys q.sort r)
+    (hc : newRowComparator st.schema q.sort = .ok c)
     (hf : FilterTyped st.symbols q.filter) (hw : WellTypedObjs st objs)
     (hq : q.paging.InRange) (hlen : (objs.length : Int) ≤ maxI64) :
     objQuery Generated.objectzPaging st q =
       .ok (page c q.paging.skip q.paging.limit (objs.filter fun r => sat r q.filter),
            total (objs.filter fun r => sat r q.filter)) := by
-  rw [objectz_paging_facts_expected]
-  have hstrict := newRowComparator_strict (objStore_hasId hid) hc hnan hd
-  have hm : matching (st.env q.filter) objs = objs.filter fun r => sat r q.filter := by
-    simp only [matching, ObjStore.env]
-    apply List.filter_congr
-    intro r hr
-    simp only [ScanEnv.admits, Bool.not_false, Bool.true_and]
-    exact objectz_filter_exact st objs q.filter hf hw r hr
-  have hmlen : ((matching (st.env q.filter) objs).length : Int) ≤ maxI64 := by
-    have : (matching (st.env q.filter) objs).length ≤ objs.length := List.length_filter_le ..
-    omega
-  simp only [objQuery, hc, ho]
-  rw [sortScan_spec hstrict _ _ _ hq (fun a ha => ha) hd.nodup hmlen, hm]
+  rw [objQuery_eq_P]
+  exact objectz_exact_pred st objs _ (fun r => sat r q.filter) q.sort q.paging c ho hd hid hc
+    (objectz_filter_exact st objs q.filter hf hw) hq hlen
 
 /-- the comparator depends on the schema only through the sort symbols (and `id`) -/
 theorem resolveSort_congr {s1 s2 : Schema} {fs : List SortField}
@@ -102,74 +128,114 @@ theorem page_perm {P : Row → Prop} {c : Cmp Row} (hc : StrictTotalOn P c) {xs 
     refine sort_unique hc hP hnd ((sort_perm c xs).trans h) (sort_sorted hc (fun a ha => hP a (h.subset ha)) (h.symm.nodup hnd))
   simp only [page, hs, total, h.length_eq, and_self]
 
-/-- **objectz_eq_bolt.**  An object store and a bolt store that hold the same rows (the object
-    store in any iteration order) and declare the sort symbols alike answer every query of the
-    fragment identically: same objects, same order, same count — whichever scanner the bolt store
-    uses. -/
-theorem objectz_eq_bolt (ost : ObjStore) (bst : BoltStore) (objs rows : List Row) (q : Query) (c : Cmp Row)
+/-- the bolt store (root store, either scanner) for any filter node whose evaluation on the row
+    cursor is `spec` -/
+theorem bolt_exact_pred (bst : BoltStore) (rows : List Row) (ev : Symbols → Bool) (spec : Row → Bool)
+    (sort : List SortField) (paging : Paging) (c : Cmp Row)
+    (hb : bst.bucket = some rows) (hroot : ∀ r, bst.childSkip r = false) (hord : BucketOrdered rows)
+    (hidb : HasIdSymbol bst.schema) (hcb : newRowComparator bst.schema sort = .ok c)
+    (hev : ∀ r ∈ rows, ev (boltSymbols r) = spec r)
+    (hq : paging.InRange) (hlen : (rows.length : Int) ≤ maxI64) :
+    queryIdsCP Generated.boltzPaging bst ev sort paging =
+      .ok (page c paging.skip paging.limit (rows.filter spec), total (rows.filter spec)) := by
+  have hstrict := newRowComparator_strict hidb hcb hord.distinct
+  rw [boltz_paging_facts_expected]
+  have hmg : ∀ l : List Row, (∀ r ∈ l, r ∈ rows) → matching (bst.envP ev) l = l.filter spec := by
+    intro l hl
+    simp only [matching, BoltStore.envP]
+    apply List.filter_congr
+    intro r hr
+    simp only [ScanEnv.admits, hroot, Bool.not_false, Bool.true_and]
+    exact hev r (hl r hr)
+  have hm := hmg rows (fun r hr => hr)
+  have hmlen : ∀ l : List Row, l.Perm rows → ((matching (bst.envP ev) l).length : Int) ≤ maxI64 := by
+    intro l hl
+    have : (matching (bst.envP ev) l).length ≤ l.length := List.length_filter_le ..
+    rw [hl.length_eq] at this; omega
+  simp only [queryIdsCP, hb, scanCursorP]
+  cases hs : newScanner sort with
+  | sorting =>
+    simp only [hcb, bucketCursor, if_true]
+    rw [sortScan_spec hstrict _ _ _ hq (fun a ha => ha) hord.distinct.nodup (hmlen rows (.refl _)), hm]
+  | index fwd =>
+    simp only
+    rw [idxScan_spec _ _ _ hq (hmlen _ (bucketCursor_perm rows fwd))]
+    have hp := matching_perm (bst.envP ev) (bucketCursor_perm rows fwd)
+    have hsorted := index_cursor_sorted hidb hs hcb hord (bst.envP ev)
+    have hPm : ∀ a ∈ matching (bst.envP ev) rows, a ∈ rows := fun a ha => (List.mem_filter.1 ha).1
+    have hnd : (matching (bst.envP ev) rows).Nodup := hord.distinct.nodup.sublist List.filter_sublist
+    have heq := sort_unique hstrict hPm hnd hp hsorted
+    rw [← hm, page_eq_target c paging _ (hmlen rows (.refl _)), ← heq]
+    simp only [total, hp.length_eq]
+
+/-- **objectz_eq_bolt, for the whole class of filters over non-set symbols.**  Let `ev` be the
+    evaluation of any filter node whose value depends on the `ast.Symbols` only through the typed
+    views of the symbols in `N` (`TypedLocal`: every node built from typed symbol nodes, constants,
+    comparisons, `in`, `between`, `contains`, …, `and` / `or` / `not` — everything except set
+    functions, which open set cursors).  Then an object store and a bolt store holding the same rows
+    (the object store in any iteration order), declaring the symbols of `N` and of the sort list
+    alike, with the objects well typed at `N`, answer identically: same objects, same order, same
+    count — whichever scanner the bolt store uses. -/
+theorem objectz_eq_bolt_any_filter (ost : ObjStore) (bst : BoltStore) (objs rows : List Row)
+    (ev : Symbols → Bool) (N : List String) (sort : List SortField) (paging : Paging) (c : Cmp Row)
     (ho : ost.objs = some objs) (hb : bst.bucket = some rows) (hperm : objs.Perm rows)
     (hroot : ∀ r, bst.childSkip r = false)
     (hord : BucketOrdered rows) (hid : ost.symbols.lookup "id" = some .string)
-    (hschema : ∀ f ∈ q.sort ++ [⟨"id", true⟩], bst.schema.lookup f.name = ost.schema.lookup f.name)
-    (hc : newRowComparator ost.schema q.sort = .ok c) (hnan : ∀ r ∈ rows, NoNaNKeys q.sort r)
-    (hf : FilterTyped ost.symbols q.filter) (hw : WellTypedObjs ost objs)
-    (hq : q.paging.InRange) (hlen : (rows.length : Int) ≤ maxI64) :
-    objQuery Generated.objectzPaging ost q =
-      (match queryIdsC Generated.boltzPaging bst q with
+    (hschema : ∀ f ∈ sort ++ [⟨"id", true⟩], bst.schema.lookup f.name = ost.schema.lookup f.name)
+    (hc : newRowComparator ost.schema sort = .ok c)
+    (hloc : TypedLocal ost.symbols N ev) (hw : ∀ r ∈ objs, ∀ n ∈ N, WellTypedAt ost.symbols r n)
+    (hq : paging.InRange) (hlen : (rows.length : Int) ≤ maxI64) :
+    objQueryP Generated.objectzPaging ost ev sort paging =
+      (match queryIdsCP Generated.boltzPaging bst ev sort paging with
        | .ok r => .ok r
        | .error e => .err e) := by
   have hd : DistinctIds objs := by
     have := hord.distinct
     unfold DistinctIds at *
     exact hperm.symm.pairwise this (fun h => Ne.symm h)
-  have hcb : newRowComparator bst.schema q.sort = .ok c := by
+  have hcb : newRowComparator bst.schema sort = .ok c := by
     rw [← hc]; unfold newRowComparator; rw [resolveSort_congr hschema]
   have hidb : HasIdSymbol bst.schema := by
     have := objStore_hasId hid
     unfold HasIdSymbol at *
     rw [hschema ⟨"id", true⟩ (by simp)]; exact this
-  rw [objectz_exact ost objs q c ho hd hid hc (fun r hr => hnan r (hperm.subset hr)) hf hw hq
-    (by rw [hperm.length_eq]; exact hlen)]
-  -- the bolt side, by the C02 lemmas
-  have hstrict := newRowComparator_strict hidb hcb hnan hord.distinct
-  have hbolt : queryIdsC Generated.boltzPaging bst q =
-      .ok (page c q.paging.skip q.paging.limit (rows.filter fun r => sat r q.filter),
-           total (rows.filter fun r => sat r q.filter)) := by
-    rw [boltz_paging_facts_expected]
-    have hm : matching (bst.env q.filter) rows = rows.filter fun r => sat r q.filter := by
-      simp only [matching, BoltStore.env, bolt_eval_sat]
-      apply List.filter_congr
-      intro r _
-      simp only [ScanEnv.admits, hroot, Bool.not_false, Bool.true_and]
-    have hmlen : ∀ l : List Row, l.Perm rows → ((matching (bst.env q.filter) l).length : Int) ≤ maxI64 := by
-      intro l hl
-      have : (matching (bst.env q.filter) l).length ≤ l.length := List.length_filter_le ..
-      rw [hl.length_eq] at this; omega
-    simp only [queryIdsC, hb, scanCursor]
-    cases hs : newScanner q.sort with
-    | sorting =>
-      simp only [hcb, bucketCursor, if_true]
-      rw [sortScan_spec hstrict _ _ _ hq (fun a ha => ha) hord.distinct.nodup (hmlen rows (.refl _)), hm]
-    | index fwd =>
-      simp only
-      rw [idxScan_spec _ _ _ hq (hmlen _ (bucketCursor_perm rows fwd))]
-      have hp := matching_perm (bst.env q.filter) (bucketCursor_perm rows fwd)
-      have hsorted := index_cursor_sorted hidb hs hcb hord (bst.env q.filter)
-      have hPm : ∀ a ∈ matching (bst.env q.filter) rows, a ∈ rows := fun a ha => (List.mem_filter.1 ha).1
-      have hnd : (matching (bst.env q.filter) rows).Nodup := hord.distinct.nodup.sublist List.filter_sublist
-      have heq := sort_unique hstrict hPm hnd hp hsorted
-      rw [← hm, page_eq_target c q.paging _ (hmlen rows (.refl _)), ← heq]
-      simp only [total, hp.length_eq]
-  rw [hbolt]
-  have hfp : (objs.filter fun r => sat r q.filter).Perm (rows.filter fun r => sat r q.filter) := hperm.filter _
+  -- both stores decide the filter as the bolt row cursor does
+  have hev : ∀ r ∈ objs, ev (objSymbols ost r) = ev (boltSymbols r) := by
+    intro r hr
+    exact hloc _ _ (fun n hn => typedView_obj_eq_bolt ost r n (hw r hr n hn))
+  rw [objectz_exact_pred ost objs ev (fun r => ev (boltSymbols r)) sort paging c ho hd hid hc
+    hev hq (by rw [hperm.length_eq]; exact hlen)]
+  rw [bolt_exact_pred bst rows ev (fun r => ev (boltSymbols r)) sort paging c hb hroot hord hidb hcb
+    (fun _ _ => rfl) hq hlen]
+  have hstrict := newRowComparator_strict hidb hcb hord.distinct
+  have hfp : (objs.filter fun r => ev (boltSymbols r)).Perm (rows.filter fun r => ev (boltSymbols r)) := hperm.filter _
   have := page_perm hstrict hfp (fun a ha => (List.mem_filter.1 ha).1)
-    (hord.distinct.nodup.sublist List.filter_sublist) q.paging.skip q.paging.limit
+    (hord.distinct.nodup.sublist List.filter_sublist) paging.skip paging.limit
   simp only [this.1, this.2]
+
+/-- **objectz_eq_bolt** for the fragment of Query/Filter.lean (comparisons, `= null`, `!= null`, any
+    nesting of `and` / `or` / `not`): an instance of `objectz_eq_bolt_any_filter`. -/
+theorem objectz_eq_bolt (ost : ObjStore) (bst : BoltStore) (objs rows : List Row) (q : Query) (c : Cmp Row)
+    (ho : ost.objs = some objs) (hb : bst.bucket = some rows) (hperm : objs.Perm rows)
+    (hroot : ∀ r, bst.childSkip r = false)
+    (hord : BucketOrdered rows) (hid : ost.symbols.lookup "id" = some .string)
+    (hschema : ∀ f ∈ q.sort ++ [⟨"id", true⟩], bst.schema.lookup f.name = ost.schema.lookup f.name)
+    (hc : newRowComparator ost.schema q.sort = .ok c)
+    (hf : FilterTyped ost.symbols q.filter) (hw : WellTypedObjs ost objs)
+    (hq : q.paging.InRange) (hlen : (rows.length : Int) ≤ maxI64) :
+    objQuery Generated.objectzPaging ost q =
+      (match queryIdsC Generated.boltzPaging bst q with
+       | .ok r => .ok r
+       | .error e => .err e) := by
+  rw [objQuery_eq_P, queryIdsC_eq_P]
+  exact objectz_eq_bolt_any_filter ost bst objs rows _ q.filter.symbols q.sort q.paging c ho hb hperm hroot hord hid
+    hschema hc (evalFilter_typedLocal ost.symbols q.filter hf)
+    (fun r hr n hn => hw r hr n (filterTyped_symbol hf hn)) hq hlen
 
 /-- the iteration order of the object store (e.g. Go map order in `IterateMap`) is irrelevant -/
 theorem objectz_order_independent (st : ObjStore) (objs objs' : List Row) (q : Query) (c : Cmp Row)
     (hperm : objs'.Perm objs) (hd : DistinctIds objs) (hid : st.symbols.lookup "id" = some .string)
-    (hc : newRowComparator st.schema q.sort = .ok c) (hnan : ∀ r ∈ objs, NoNaNKeys q.sort r)
+    (hc : newRowComparator st.schema q.sort = .ok c)
     (hf : FilterTyped st.symbols q.filter) (hw : WellTypedObjs st objs)
     (hq : q.paging.InRange) (hlen : (objs.length : Int) ≤ maxI64) :
     objQuery Generated.objectzPaging { st with objs := some objs' } q =
@@ -178,14 +244,37 @@ theorem objectz_order_independent (st : ObjStore) (objs objs' : List Row) (q : Q
     unfold DistinctIds at *
     exact hperm.symm.pairwise hd (fun h => Ne.symm h)
   have hw' : WellTypedObjs { st with objs := some objs' } objs' := fun r hr => hw r (hperm.subset hr)
-  rw [objectz_exact { st with objs := some objs' } objs' q c rfl hd' hid hc (fun r hr => hnan r (hperm.subset hr)) hf hw' hq
+  rw [objectz_exact { st with objs := some objs' } objs' q c rfl hd' hid hc hf hw' hq
       (by rw [hperm.length_eq]; exact hlen),
-    objectz_exact { st with objs := some objs } objs q c rfl hd hid hc hnan hf hw hq hlen]
-  have hstrict := newRowComparator_strict (objStore_hasId hid) hc hnan hd
+    objectz_exact { st with objs := some objs } objs q c rfl hd hid hc hf hw hq hlen]
+  have hstrict := newRowComparator_strict (objStore_hasId hid) hc hd
   have hfp : (objs'.filter fun r => sat r q.filter).Perm (objs.filter fun r => sat r q.filter) := hperm.filter _
   have := page_perm hstrict hfp (fun a ha => (List.mem_filter.1 ha).1)
     (hd.nodup.sublist List.filter_sublist) q.paging.skip q.paging.limit
   simp only [this.1, this.2]
+
+/-- **an object store must declare `id`**: `newRowComparator` appends `id asc` to every sort list, so
+    without an `id` symbol every query — whatever its filter, sort, skip, limit — fails with "no such
+    sort field" once the requested sort fields resolved (a bolt store always has its id symbol). -/
+theorem objectz_needs_id (pf : PagingFacts) (st : ObjStore) (q : Query) (hid : st.symbols.lookup "id" = none)
+    (hs : ∀ f ∈ q.sort, fieldErr st.schema f = none) :
+    objQuery pf st q = .err .noSuchField := by
+  have hl : st.schema.lookup "id" = none := by
+    unfold ObjStore.schema
+    generalize st.symbols = l at hid
+    induction l with
+    | nil => rfl
+    | cons p l ih =>
+      obtain ⟨n, t⟩ := p
+      simp only [List.map_cons, List.lookup] at hid ⊢
+      by_cases hb : ("id" == n) = true
+      · rw [hb] at hid; cases hid
+      · have hb' : ("id" == n) = false := by simpa using hb
+        rw [hb'] at hid ⊢; exact ih hid
+  have he : newRowComparator st.schema q.sort = .error .noSuchField := by
+    rw [newRowComparator_error_iff]
+    exact ⟨q.sort, ⟨"id", true⟩, [], rfl, hs, by simp [fieldErr, hl]⟩
+  simp only [objQuery, he]
 
 /-! ### non-vacuity, and the `IsNil` of the pinned tree -/
 
@@ -232,6 +321,72 @@ example : DistinctIds exObjs ∧ WellTypedObjs exStore exObjs ∧ FilterTyped ex
 theorem pinned_isnil_violates :
     ifaceIsNilPinned (.stringPtr none) = false ∧ ifaceIsNil (.stringPtr none) = true := by decide
 
+/-- an object store whose iterator function returns nil holds nothing: every query whose sort list
+    resolves is answered with no objects and count 0 (the nil test precedes the first use of the
+    iterator since bbcb51c) -/
+theorem objectz_nil_iterator_empty (pf : PagingFacts) (st : ObjStore) (q : Query) (c : Cmp Row)
+    (ho : st.objs = none) (hc : newRowComparator st.schema q.sort = .ok c) :
+    objQuery pf st q = .ok ([], 0) := by
+  simp only [objQuery, hc, ho]
+
+/-- **set functions are outside the class, and both stores say so**: a set function (`anyOf`, `allOf`,
+    `count`, `isEmpty`) applied to a non-set or unknown symbol is rejected by `ast.Parse` against the
+    bolt store and against the object store (whose `IsSet` answers `(false, true)` for every name) -/
+theorem set_function_on_non_set_rejected (schema : Schema) (name : String)
+    (h : ∀ info, schema.lookup name = some info → info.isSet = false) :
+    setFunctionAccepted (boltIsSet schema name) = false ∧ setFunctionAccepted (objIsSet name) = false :=
+  set_function_rejected schema name h
+
+/-! ### a NaN sort key (repaired in 1532996)
+
+Before 1532996 `*s1 < *s2` and `*s1 > *s2` being both false made the float64 comparator tie NaN with
+every number; the row comparator was then not transitive (2.0 < NaN < 1.0 < 2.0 through the id
+tie-break) and the llrb tree — `Query/Llrb.lean`, the port of the code's tree — gave a result that
+depended on the insertion order: the bolt store inserts in id order, the object store in its
+iterator's order.  Now NaN sorts before every number in both comparators, `objectz_eq_bolt*` carry no
+exclusion, and the examples below keep the old behaviour on record. -/
+
+theorem objectz_float_comparator_facts_expected : Generated.objectzFloatCmp = expectedFloatCmp := by decide
+theorem boltz_float_comparator_facts_expected : Generated.boltzFloatCmp = expectedFloatCmp := by decide
+
+def nanSyms : List (String × SymType) := [("id", .string), ("f", .float64)]
+/-- a: 2.0, b: NaN, c: 1.0 -/
+def nanRows : List Row :=
+  [⟨[97], [("f", .float64 0x4000000000000000 [])]⟩, ⟨[98], [("f", .float64 0x7ff8000000000001 [])]⟩,
+   ⟨[99], [("f", .float64 0x3ff0000000000000 [])]⟩]
+def nanBolt : BoltStore := { schema := nanSyms.map fun (n, t) => (n, ⟨t, false⟩), bucket := some nanRows }
+def nanQuery (limit : Option Int) : Query := ⟨.tt, [⟨"f", true⟩], ⟨none, limit⟩⟩
+
+def boltIds : Except SortErr (List Row × Int) → Option (List Bytes × Int)
+  | .ok r => some (r.1.map (·.id), r.2)
+  | .error _ => none
+
+/-- `sort by f` with the comparator of the code as it is: NaN first, whatever the order of arrival, in
+    the list model of the theorems and in the llrb port alike -/
+example :
+    boltIds (queryIdsC expectedPaging nanBolt (nanQuery none)) = some ([[98], [99], [97]], 3) ∧
+    boltIds (queryIdsCT expectedPaging nanBolt (nanQuery none)) = some ([[98], [99], [97]], 3) ∧
+    ids (objQueryT expectedPaging ⟨nanSyms, some nanRows.reverse⟩ (nanQuery none)) = some ([[98], [99], [97]], 3) ∧
+    ids (objQuery expectedPaging ⟨nanSyms, some nanRows.reverse⟩ (nanQuery (some 2))) = some ([[98], [99]], 3) ∧
+    boltIds (queryIdsC expectedPaging nanBolt (nanQuery (some 2))) = some ([[98], [99]], 3) := by decide
+
+/-- the row comparator `sort by f` had BEFORE 1532996: float comparison without the NaN branch, then id -/
+def preFixCmp : Cmp Row :=
+  chain [fun a b => nullsFirst (cmpFloatValWith false) (fieldToFloat64 (evalSym "f" a)) (fieldToFloat64 (evalSym "f" b)),
+         symCmp .string "id" true]
+
+def scanIds (r : List Row × Int) : List Bytes × Int := (r.1.map (·.id), r.2)
+
+/-- **the former counter-example** (`nan-sort-key`, on the llrb port run with the pre-fix comparator): the
+    same three rows reach the result tree in id order (bolt) or in reverse (an object store iterating
+    c, b, a) — different order, and with `limit 2` different objects -/
+example :
+    scanIds (sortScanT expectedPaging preFixCmp { pred := fun _ => true } ⟨none, none⟩ (some nanRows)) = ([[97], [98], [99]], 3) ∧
+    scanIds (sortScanT expectedPaging preFixCmp { pred := fun _ => true } ⟨none, none⟩ (some nanRows.reverse)) = ([[98], [99], [97]], 3) ∧
+    scanIds (sortScanT expectedPaging preFixCmp { pred := fun _ => true } ⟨none, some 2⟩ (some nanRows)) = ([[97], [98]], 3) ∧
+    scanIds (sortScanT expectedPaging preFixCmp { pred := fun _ => true } ⟨none, some 2⟩ (some nanRows.reverse)) = ([[98], [99]], 3) := by
+  decide
+
 end StorageModel.Properties.C19
 
 #print axioms StorageModel.Properties.C19.objectz_paging_facts_expected
@@ -240,3 +395,9 @@ end StorageModel.Properties.C19
 #print axioms StorageModel.Properties.C19.objectz_eq_bolt
 #print axioms StorageModel.Properties.C19.objectz_order_independent
 #print axioms StorageModel.Properties.C19.pinned_isnil_violates
+#print axioms StorageModel.Properties.C19.objectz_eq_bolt_any_filter
+#print axioms StorageModel.Properties.C19.objectz_needs_id
+#print axioms StorageModel.Properties.C19.objectz_float_comparator_facts_expected
+#print axioms StorageModel.Properties.C19.boltz_float_comparator_facts_expected
+#print axioms StorageModel.Properties.C19.set_function_on_non_set_rejected
+#print axioms StorageModel.Properties.C19.objectz_nil_iterator_empty
